@@ -244,6 +244,7 @@ fn do_new_loop(sim: &Rc<Sim>, lp: &mut Option<EventLoop<'static, Tag>>) {
     st.extra_table.clear();
     st.leaked_keys.clear();
     st.kept_rejected.clear();
+    st.issued_keys.clear();
     drop(st);
     *lp = Some(l);
     sim.probe("second_loop");
@@ -270,6 +271,8 @@ fn do_drop_loop(sim: &Rc<Sim>, lp: &mut Option<EventLoop<'static, Tag>>) {
         s.enabled = false;
     }
     st.key_to_id.clear();
+    st.wakeup_outstanding = false;
+    st.stop_requested = false;
 }
 
 // ------------------------------------------------------------------------------------------
@@ -334,6 +337,9 @@ fn do_run(sim: &Rc<Sim>, lp: &mut Option<EventLoop<'static, Tag>>, t: Timeout, i
     let iters = iters.clamp(1, 6);
     let t_start = std::cell::Cell::new(sim.now_ns());
     let count = std::cell::Cell::new(0u32);
+    // run() forgets a stop requested before it started
+    sim.st.borrow_mut().stop_requested = false;
+    let stopped_at: std::cell::Cell<Option<u32>> = std::cell::Cell::new(None);
     pre_dispatch(sim);
     let mut tag = Tag(sim.tag);
     let sim2 = sim.clone();
@@ -344,7 +350,13 @@ fn do_run(sim: &Rc<Sim>, lp: &mut Option<EventLoop<'static, Tag>>, t: Timeout, i
             sim2.trace(|| format!("  run iteration {} done t={}..{}", count.get(), t_start.get(), now));
             after_dispatch(&sim2, t, true, None, t_start.get(), now);
             count.set(count.get() + 1);
-            if count.get() >= iters || sim2.is_dead() {
+            if sim2.st.borrow().stop_requested && stopped_at.get().is_none() {
+                // the program asked for the stop during this iteration: run() returns now
+                stopped_at.set(Some(count.get()));
+            }
+            if stopped_at.get().is_some() {
+                // (nothing more to prepare)
+            } else if count.get() >= iters || sim2.is_dead() {
                 signal.stop();
             } else {
                 t_start.set(now);
@@ -358,8 +370,9 @@ fn do_run(sim: &Rc<Sim>, lp: &mut Option<EventLoop<'static, Tag>>, t: Timeout, i
             sim.violate("dispatch.panic", vec!["run".into()], format!("run() panicked: {}", panic_msg(&p)));
         }
         Ok(Ok(())) => {
-            if count.get() != iters && !sim.is_dead() {
-                sim.violate("run.iterations", vec![], format!("run() returned Ok after {} iterations although stop() was requested in iteration {}", count.get(), iters));
+            let want = stopped_at.get().unwrap_or(iters);
+            if count.get() != want && !sim.is_dead() {
+                sim.violate("run.iterations", vec![], format!("run() returned Ok after {} iterations although stop() was requested in iteration {}", count.get(), want));
             } else {
                 sim.rule_ok(&["C11"], 111);
             }
@@ -401,6 +414,7 @@ fn do_block_on(sim: &Rc<Sim>, lp: &mut Option<EventLoop<'static, Tag>>, pendings
     let t_start = std::cell::Cell::new(sim.now_ns());
     let count = std::cell::Cell::new(0u32);
     let stopped = std::cell::Cell::new(false);
+    sim.st.borrow_mut().stop_requested = false;
     pre_dispatch(sim);
     let mut tag = Tag(sim.tag);
     let sim2 = sim.clone();
@@ -411,7 +425,10 @@ fn do_block_on(sim: &Rc<Sim>, lp: &mut Option<EventLoop<'static, Tag>>, pendings
             // block_on waits with no timeout of its own
             after_dispatch(&sim2, Timeout::None, true, None, t_start.get(), now);
             count.set(count.get() + 1);
-            if count.get() >= max_iters || sim2.is_dead() {
+            if sim2.st.borrow().stop_requested {
+                // the program asked for the stop during this iteration
+                stopped.set(true);
+            } else if count.get() >= max_iters || sim2.is_dead() {
                 stopped.set(true);
                 signal.stop();
             } else {
@@ -545,17 +562,22 @@ fn after_dispatch(sim: &Rc<Sim>, t: Timeout, ok: bool, err: Option<String>, t_st
         return;
     }
     crate::exec::hidden_after_dispatch(sim, ok || waits.len() == 1, waits.first().map(|w| w.t_leave).unwrap_or(t_end));
-    crate::exec::after_dispatch(sim, ok);
-    if sim.is_dead() {
-        return;
-    }
-    crate::adapter::after_dispatch(sim, ok);
-    if sim.is_dead() {
-        return;
-    }
-    crate::sig::after_dispatch(sim, ok);
-    if sim.is_dead() {
-        return;
+    // (a wait that filled the poller's event buffer - 1024 events - may have left ready sources
+    // for the next dispatch: the "pending at the wait, hence served" oracles do not apply)
+    let saturated = sim.hk.borrow().batch_n_fd >= 1024;
+    if !saturated {
+        crate::exec::after_dispatch(sim, ok);
+        if sim.is_dead() {
+            return;
+        }
+        crate::adapter::after_dispatch(sim, ok);
+        if sim.is_dead() {
+            return;
+        }
+        crate::sig::after_dispatch(sim, ok);
+        if sim.is_dead() {
+            return;
+        }
     }
     // ---- C12: the wait
     if waits.len() != 1 && (ok || waits.len() > 1) {
@@ -566,7 +588,11 @@ fn after_dispatch(sim: &Rc<Sim>, t: Timeout, ok: bool, err: Option<String>, t_st
     // ---- C02 and friends: MUST subset of invoked + excused. A source error is reported after
     // the whole batch has been processed, so the obligation also holds for a dispatch that
     // returned an error (the failing sources themselves aside), provided the wait was reached.
-    if ok || waits.len() == 1 {
+    // (the property speaks of batches up to the poller's buffer size)
+    if saturated {
+        sim.probe("batch_saturated");
+    }
+    if (ok || waits.len() == 1) && !saturated {
         let st = sim.st.borrow();
         let mut bad: Option<(Vec<&'static str>, String, Vec<String>)> = None;
         for (id, m) in st.must.iter() {
@@ -770,6 +796,11 @@ pub fn wait_hook(
             break;
         }
         // the loop would go to sleep now
+        if std::mem::replace(&mut sim.st.borrow_mut().wakeup_outstanding, false) {
+            sim.violate("wait.wakeup_ignored", vec![], "LoopSignal::wakeup() returned since the last wait ended, yet this wait finds no notification and goes to sleep".into());
+            result = Err(io::Error::new(io::ErrorKind::Other, "simulation ended"));
+            break;
+        }
         let now = sim.now_ns();
         let wake_at = req.map(|r| t_enter.saturating_add(r));
         let next_env = sim.st.borrow().env.front().map(|e| e.at.max(now));
@@ -812,6 +843,7 @@ pub fn wait_hook(
             }
         }
     }
+    sim.st.borrow_mut().wakeup_outstanding = false;
     rec.t_leave = sim.now_ns();
     sim.trace(|| format!("  wait req={:?} -> events={} notified={} t={}..{} forever={}", req, rec.events, rec.notified, rec.t_enter, rec.t_leave, rec.would_block_forever));
     sim.hk.borrow_mut().waits.push(rec);
